@@ -146,6 +146,9 @@ def check_shared_state(ctx, rule):
             if SHARED.search(ty) and not ty.startswith("&"):
                 ctx.ob(rule, "local:%s:%s" % (fn.path, ty[:80]), False, "%s:%d" % (fn.file, fn.line), "local of type `%s`" % ty, fn)
     for s in [s for c in PAR_CRATES for s in prog.crates[c]["statics"]]:
+        if re.search(r"::__CALLSITE(::META)?$", s["path"]):
+            ctx.note("tracing callsite static %s (feature `tracing`): interest cache of the logging macros, does not feed results" % s["path"])
+            continue
         ctx.ob(rule, "static:%s" % s["path"], "mut" not in s.get("dbg", "").lower() and not SHARED.search(s["ty"]), s["path"], "static of type `%s` (%s)" % (s["ty"], s.get("dbg")))
     ctx.ob(rule, "OnceLock-inventory", [(p, n) for p, n, _ in found_once] == [("essential_vm::cached::LazyCache", "pred_data_hashes")] or not found_once, "crates/vm/src/cached.rs",
            "OnceLock fields: %s" % found_once)
